@@ -501,7 +501,7 @@ func c11panes(spec string) *xl.Panes {
 		return nil
 	}
 	p := strings.Split(spec, ",")
-	if len(p) != 3 {
+	if len(p) != 3 && len(p) != 4 {
 		return nil
 	}
 	x, _ := strconv.Atoi(p[1])
@@ -513,7 +513,15 @@ func c11panes(spec string) *xl.Panes {
 	} else if y == 0 {
 		pane = "topRight"
 	}
-	return &xl.Panes{Freeze: p[0] == "1", Split: p[0] != "1", XSplit: x, YSplit: y, TopLeftCell: tl, ActivePane: pane}
+	// first field: 1 = freeze, 0 = split, 2 = neither (removes the pane); optional fourth field: a selection
+	ps := &xl.Panes{Freeze: p[0] == "1", Split: p[0] == "0", XSplit: x, YSplit: y, TopLeftCell: tl, ActivePane: pane}
+	if len(p) == 4 {
+		ps.Selection = []xl.Selection{{SQRef: tl, ActiveCell: tl, Pane: pane}}
+		if p[3] == "2" {
+			ps.Selection = append(ps.Selection, xl.Selection{SQRef: "A1:B2", ActiveCell: "A1"})
+		}
+	}
+	return ps
 }
 
 func (c *c11Case) exec(line string) {
@@ -694,7 +702,30 @@ func (c *c11Case) exec(line string) {
 		if p == nil {
 			ok = "0"
 		}
-		c.op(fmt.Sprintf("panes %s %s", ok, c11hexb(xl.VerifC11Fields(c.sw, 4, 5))), c11res(err))
+		if p == nil {
+			c.op(fmt.Sprintf("panes %s %s", ok, c11hexb(xl.VerifC11Fields(c.sw, 4, 5))), c11res(err))
+		} else {
+			// the options go to the model, which renders fields 4..5 itself; external: the sheet view's own attributes and field 5
+			f4 := string(xl.VerifC11Fields(c.sw, 4, 4))
+			va := ""
+			if i := strings.LastIndex(f4, "<sheetView"); i >= 0 { // the last sheet view is the one setPanes changes
+				rest := f4[i+len("<sheetView"):]
+				if j := strings.Index(rest, ">"); j >= 0 {
+					va = rest[:j]
+				}
+			}
+			b := func(v bool) string {
+				if v {
+					return "1"
+				}
+				return "0"
+			}
+			toks := []string{"panes2", b(p.Freeze), b(p.Split), strconv.Itoa(p.XSplit), strconv.Itoa(p.YSplit), hx(p.TopLeftCell), hx(p.ActivePane), hx(va), c11hexb(xl.VerifC11Fields(c.sw, 5, 5))}
+			for _, sl := range p.Selection {
+				toks = append(toks, hx(sl.ActiveCell), hx(sl.Pane), hx(sl.SQRef))
+			}
+			c.op(strings.Join(toks, " "), c11res(err))
+		}
 		r.Stat("op:panes:" + c11res(err))
 		if exp := c.accepted == 0 && p != nil; exp != (err == nil) {
 			c.fail("panes:verdict", fmt.Sprintf("SetPanes = %v, expected accept=%v (rows accepted so far: %d)", err, exp, c.accepted), 0)
@@ -1661,7 +1692,11 @@ func c11genCase(rng *Rng, kind string) []string {
 			if x == 0 && y == 0 {
 				y = 1
 			}
-			pre = append(pre, fmt.Sprintf("panes 1,%d,%d", x, y))
+			spec := fmt.Sprintf("panes %d,%d,%d", rng.Pick2([]int{1, 1, 1, 0, 0, 2}), x, y)
+			if rng.Chance(40) {
+				spec += fmt.Sprintf(",%d", rng.Range(1, 2))
+			}
+			pre = append(pre, spec)
 		}
 	}
 	merges := []string{}
